@@ -89,6 +89,12 @@ func (c *conn) Close() error {
 	return c.terminate(net.ErrClosed)
 }
 
+// broken reports whether the connection has been ended by a fault (read or write error, abandoned
+// exchange) rather than by Close: such a connection can never be used again.
+func (c *conn) broken() bool {
+	return !c.closed.Load() && c.ctx.Err() != nil
+}
+
 // terminate gracefully shuts down the connection by canceling the server context,
 // closing the transaction channel if it exists, and closing the underlying stream.
 // It accepts an error parameter to provide context for the cancellation.
